@@ -15,7 +15,8 @@ import (
 )
 
 type Op struct {
-	K      string   `json:"k"` // join | leave | send
+	K      string   `json:"k"`              // join (issue + connect at once) | issue | connect | noise | leave | send
+	What   string   `json:"what,omitempty"` // noise: session | badsig | status | bids
 	N      uint64   `json:"n"`
 	TT     string   `json:"tt,omitempty"`
 	Scopes []string `json:"scopes"`
@@ -54,7 +55,7 @@ func coqStrs(ss []string) string {
 
 func (o Op) coq() string {
 	switch o.K {
-	case "join":
+	case "join", "connect":
 		return lib.App("OJoin", lib.App("mkreq", lib.N(o.N), lib.Str("/session/"+o.TT), lib.Str(o.TT), coqStrs(o.Scopes), lib.Nat(bufferSize)))
 	case "leave":
 		return lib.App("OLeave", lib.N(o.N))
@@ -70,9 +71,11 @@ func (c Case) coq() string {
 			noCode[s.N] = true
 		}
 	}
+	// the hub script: a connection exists from the moment its code is redeemed; requests that only
+	// reach the access API (issue, noise) are not hub events
 	ops := []string{}
 	for _, o := range c.Ops {
-		if !noCode[o.N] {
+		if !noCode[o.N] && o.K != "issue" && o.K != "noise" {
 			ops = append(ops, o.coq())
 		}
 	}
@@ -164,6 +167,121 @@ func genCase(r *lib.Rng, mask int) []Op {
 	return ops
 }
 
+// genDeferred: several participants with different scope sets, on the same and on different
+// topics, obtain their codes first, in scrambled order and with unrelated requests (other sessions,
+// admin and status calls, a badly signed token) reaching the access API in between; only then do
+// they connect (also: connect one, then issue for the next). Each connection must get the
+// capabilities of ITS OWN token, whatever passed through the access API since the code was issued.
+func genDeferred(r *lib.Rng, mask int) []Op {
+	tts := [][]string{{"t4", "t4/x"}, {"s", "s2"}, {"d", "d"}}[r.Intn(3)]
+	nP := r.Range(2, 4)
+	type part struct {
+		scopes []string
+		tt     string
+		name   uint64
+	}
+	simple := [][]string{{"read"}, {"write"}, {"read", "write"}, {"write", "read"}, {"host"}, {"read", "host"}, {"write", "host"}}
+	parts := make([]*part, nP)
+	for i := range parts {
+		var sc []string
+		switch {
+		case i == 0 && r.Bool():
+			sc = subset(mask|r.Intn(4)<<8, r)
+		case r.Chance(2, 3):
+			sc = append([]string(nil), simple[r.Intn(len(simple))]...)
+		default:
+			sc = subset(r.Intn(1024), r)
+		}
+		nextName++
+		parts[i] = &part{scopes: sc, tt: tts[r.Intn(2)], name: nextName}
+	}
+	// a short read-only or write-only token is always among them
+	parts[r.Intn(nP)].scopes = [][]string{{"read"}, {"write"}}[r.Intn(2)]
+	noise := func() Op {
+		what := []string{"session", "session", "session", "badsig", "status", "bids"}[r.Intn(6)]
+		o := Op{K: "noise", What: what, TT: fmt.Sprintf("zz%d", r.Intn(3))}
+		if r.Bool() {
+			o.Scopes = append([]string(nil), simple[r.Intn(len(simple))]...)
+		} else {
+			o.Scopes = subset(1+r.Intn(1023), r)
+		}
+		return o
+	}
+	var ops []Op
+	// random interleaving in which everybody's issue precedes its connect
+	state := make([]int, nP) // 0 nothing yet, 1 issued, 2 connected
+	eager := r.Chance(1, 3)  // connect A, then issue for B, ...
+	for done := 0; done < nP; {
+		i := r.Intn(nP)
+		switch {
+		case state[i] == 0:
+			ops = append(ops, Op{K: "issue", N: parts[i].name, TT: parts[i].tt, Scopes: parts[i].scopes})
+			state[i] = 1
+			if eager && r.Chance(2, 3) {
+				continue
+			}
+		case state[i] == 1:
+			waiting := 0
+			for _, s := range state {
+				if s == 0 {
+					waiting++
+				}
+			}
+			if !eager && waiting > 0 && r.Chance(3, 4) {
+				continue // codes first, connections later
+			}
+			ops = append(ops, Op{K: "connect", N: parts[i].name, TT: parts[i].tt, Scopes: parts[i].scopes})
+			state[i] = 2
+			done++
+		default:
+			continue
+		}
+		for k := r.Intn(3); k > 0; k-- {
+			ops = append(ops, noise())
+		}
+	}
+	seq := 0
+	for i, n := 0, r.Range(6, 12); i < n; i++ {
+		p := parts[r.Intn(nP)]
+		switch x := r.Intn(12); {
+		case x == 0:
+			ops = append(ops, noise())
+		case x == 1:
+			// leave, get a new code, let something else pass, connect again
+			ops = append(ops, Op{K: "leave", N: p.name})
+			nextName++
+			p.name = nextName
+			ops = append(ops, Op{K: "issue", N: p.name, TT: p.tt, Scopes: p.scopes}, noise(), Op{K: "connect", N: p.name, TT: p.tt, Scopes: p.scopes})
+		default:
+			seq++
+			nextID++
+			ops = append(ops, Op{K: "send", N: p.name, TT: p.tt, MT: 1 + r.Intn(2), ID: nextID, Seq: seq})
+		}
+	}
+	return ops
+}
+
+// doNoise sends a request that has nothing to do with the participants of the case.
+func doNoise(k *hubkit.Kit, o Op, res *lib.Result) {
+	rl := k.Relay
+	now := time.Now().Unix()
+	switch o.What {
+	case "session", "badsig":
+		secret := rl.Secret
+		if o.What == "badsig" {
+			secret = "not-the-secret"
+		}
+		st, _, _ := rl.Session(o.TT, lib.Sign(rl.Claims(o.TT, "bk-noise", o.Scopes, now-5, now-5, now+3600), secret))
+		res.Count(fmt.Sprintf("noise:%s:%d", o.What, st))
+	case "status":
+		_, st := rl.Status(lib.Sign(rl.Claims("", "", append([]string{"relay:stats"}, o.Scopes...), now-5, now-5, now+3600), rl.Secret))
+		res.Count(fmt.Sprintf("noise:status:%d", st))
+	default:
+		_, st := rl.BidList("deny", lib.Sign(rl.Claims("", "", append([]string{"relay:admin"}, o.Scopes...), now-5, now-5, now+3600), rl.Secret))
+		res.Count(fmt.Sprintf("noise:bids:%d", st))
+	}
+}
+
 func digest(f *hubkit.Frame) {
 	tags, junk := hubkit.ParseTags(f.Data)
 	if junk > 0 {
@@ -187,10 +305,23 @@ func runCase(k *hubkit.Kit, c *Case, res *lib.Result) []*hubkit.Peer {
 	flags := map[uint64]hubkit.Report{}
 	for _, o := range c.Ops {
 		switch o.K {
-		case "join":
-			p := k.Join(o.N, o.TT, "/session/"+o.TT, o.Scopes, digest)
+		case "noise":
+			doNoise(k, o, res)
+		case "issue":
+			p := k.Issue(o.N, o.TT, o.Scopes)
 			peers[o.N] = p
 			order = append(order, p)
+		case "join", "connect":
+			var p *hubkit.Peer
+			if o.K == "join" {
+				p = k.Join(o.N, o.TT, "/session/"+o.TT, o.Scopes, digest)
+				peers[o.N] = p
+				order = append(order, p)
+			} else {
+				p = peers[o.N]
+				k.Connect(p, "/session/"+o.TT, digest, 0)
+				res.Count("join:deferred")
+			}
 			res.Count("join:" + map[bool]string{true: "registered", false: "refused-" + p.Refused}[p.Refused == ""])
 			if p.Refused == "" {
 				if st, ok := k.Status(); ok {
@@ -301,11 +432,16 @@ func main() {
 		lib.ReadReplayCase(a.Replay, &c)
 		cases = []Case{c}
 	} else {
-		n := a.Pick(256, 1536)
+		n := a.Pick(512, 3072)
 		// every subset of the pool turns up as participant 0 once per 256 cases, in seed-dependent order
 		off, mul := rng.Intn(256), 2*rng.Intn(128)+1
 		for i := 0; i < n; i++ {
-			cases = append(cases, Case{Ops: genCase(rng.Fork(), (off+i*mul)%256)})
+			// even cases: session and connect at once; odd cases: codes first, connections later
+			if i%2 == 0 {
+				cases = append(cases, Case{Ops: genCase(rng.Fork(), (off+(i/2)*mul)%256)})
+			} else {
+				cases = append(cases, Case{Ops: genDeferred(rng.Fork(), (off+(i/2)*mul)%256)})
+			}
 		}
 	}
 	coq := make([]string, len(cases))
